@@ -150,6 +150,7 @@ type conn struct {
 	r        *io.PipeReader
 	w        *io.PipeWriter
 	once     sync.Once
+	wonce    sync.Once
 	done     chan struct{}
 	closeErr string
 	writeErr bool
@@ -159,6 +160,12 @@ type conn struct {
 func (p *conn) Read(b []byte) (int, error) { return p.r.Read(b) }
 func (p *conn) Write(b []byte) (int, error) {
 	if p.writeErr && p.helloed.Load() {
+		// a dead plugin: the engine's writes fail and its reads see EOF
+		p.wonce.Do(func() {
+			Log("write-fault", p.src, p.id, "", nil)
+			_ = p.r.Close()
+			_ = p.w.Close()
+		})
 		return 0, fmt.Errorf("scripted write failure on conn %d", p.id)
 	}
 	return p.w.Write(b)
